@@ -703,8 +703,38 @@ fn out_items_prefix_aware(input: &TokenStream, output: &TokenStream) -> Option<S
         items.extend(after);
         return Some(list("items", items));
     }
-    if has_kw("impl") || has_kw("trait") {
-        return None; // impl blocks / traits are re-synthesised by the macro: parsed as a whole
+    if has_kw("trait") {
+        return None; // traits are re-synthesised by the macro: parsed as a whole
+    }
+    if has_kw("impl") {
+        // `attrs' unsafe? impl SelfTy { body }` (the inherent impl holding the user's items verbatim), then the generated impl
+        let k = o.iter().position(is_brace)?;
+        let body_o: Vec<TokenTree> = match &o[k] {
+            TokenTree::Group(g) => g.stream().into_iter().collect(),
+            _ => return None,
+        };
+        if !ts_eq(&body_i, &body_o) {
+            return None;
+        }
+        let mut head: Vec<TokenTree> = o[..k].to_vec();
+        head.push(TokenTree::Group(proc_macro2::Group::new(proc_macro2::Delimiter::Brace, TokenStream::new())));
+        let im: syn::ItemImpl = syn::parse2(head.into_iter().collect()).ok()?;
+        if has_inner_attr(&im.attrs) || im.defaultness.is_some() || im.trait_.is_some() {
+            return None;
+        }
+        let gen = parse_items(&o[k + 1..])?;
+        let inner: Vec<String> = if body_i.is_empty() { vec![] } else { vec![format!("(iother {})", toks(body_i.iter().cloned().collect()))] };
+        let mut items = vec![format!(
+            "(impl {} {} {} {} {} {})",
+            attrs(&im.attrs),
+            b(im.unsafety.is_some()),
+            generics(&im.generics),
+            opt(None),
+            toks_of(&im.self_ty),
+            list("items", inner)
+        )];
+        items.extend(gen);
+        return Some(list("items", items));
     }
     // fn: the output starts with the input tokens
     if o.len() < n || !ts_eq(&i, &o[..n]) {
